@@ -27,8 +27,8 @@ ASSUMPTIONS = [
     "a string ending in a NUL character is explored as a column value but not as the comparison scalar of filter(col=value): NumPy's scalar conversion trims it before any comparison",
 ]
 BOUND = {
-    "quick": "size ladder: periodic frames of 17, 129, 1025 rows for f8/str/i8/D keys and 65537 rows for int keys (thorough: 65537 for all four) x unique/drop_na/head/tail/slice/filter; rows 0..3; single-key alphabets 'quick' (<= 6 values) for f8,i8,u1,b1,str,U,D,us,obj; two-key frames over {NA,lo,hi}^2 with rows 0..3; all masks/indices/subsets/n/RNG answers",
-    "thorough": "rows 0..4; single-key alphabets 'thorough' (<= 10 values); two-key frames rows 0..4; all masks/indices/subsets/n/RNG answers",
+    "quick": "size ladder: periodic frames of 17, 129, 1025 rows for f8/str/i8/D keys and 65537 rows for int keys (thorough: 65537 for all four) x unique/drop_na/head/tail/slice/filter; rows 0..3; single-key alphabets 'quick' (<= 6 values) for f8,i8,u1,b1,str,U,D,us,obj; two-key frames over {NA,lo,hi}^2 with rows 0..3; all masks/indices/subsets/n/RNG answers; particular values (marker-like text, dates outside the nanosecond range, the ends of int64, +inf), filter values of another type than the column, array forms and provenances of the single-key frames (strided, list-built, NumPy StringDType, other byte order, product of rbind; thorough: read-only, reversed, products of slice / deepcopy / Arrow)",
+    "thorough": "rows 0..4; single-key alphabets 'thorough' (<= 10 values); two-key frames rows 0..4; all masks/indices/subsets/n/RNG answers; plus the additions listed for the quick tier",
 }
 TIME_CAP = {"quick": 240, "thorough": 3000}
 
